@@ -51,7 +51,7 @@ def main():
                'violation_lines': viol, 'undecided_lines': [u[:400] for u in und], 'wall_s': round(time.time() - t0, 1),
                'repo_head': subprocess.run(['git', '-C', REPO, 'rev-parse', '--short', 'HEAD'], capture_output=True, text=True).stdout.strip()}
         json.dump(res, open(os.path.join(d, 'result.json'), 'w'), indent=1)
-        print('%s rc=%d %s %s' % (sid, rc, verdict, (failed[:2] or [u[:160] for u in und[:1]])))
+        print('%s rc=%d %s %s' % (sid, rc, verdict, (failed[:2] or [u[:160] for u in und[:1]])), flush=True)
         summary.append((sid, verdict))
     from collections import Counter
     print(Counter(v for _, v in summary))
